@@ -681,7 +681,7 @@ var allKinds = []string{"AssignVar", "Deref", "SetLit", "SetField", "SetElem", "
 
 // kinds added later: they are enabled in their own families and in the simulation only, so that
 // the edge sets of the older families stay what they were
-var newKinds = []string{"AppendN", "Tuple", "MapTuple", "LoopDefine"}
+var newKinds = []string{"AppendN", "Tuple", "MapTuple", "LoopDefine", "SetLitSelf"}
 
 // heldBack: operation kinds (and their families) whose first runs showed defects of the interpreter
 // that are being repaired in /repo; they join the tiers when the repair has landed
@@ -826,6 +826,8 @@ func families(quick bool) []family {
 		{name: "append0", roots: []string{"l", "k", "ll"}, kinds: []string{"AppendN", "SetElem", "Slice2"}, init: "zero", steps: 2, maxSel: 1, maxIdx: 2, copyTypes: ct, native: 40},
 		// a variable defined by := in a loop body is a new variable at every iteration: slices of it kept across iterations
 		{name: "loopdef", roots: []string{"a", "s", "as", "ll", "ps"}, kinds: []string{"LoopDefine", "SetElem", "SetField"}, init: "rich", steps: 2, maxSel: 2, maxIdx: 2, copyTypes: ct, native: 20},
+		// a composite literal whose elements read the variable it is assigned to
+		{name: "litself", roots: []string{"a", "s", "as", "p", "ps", "l"}, kinds: []string{"SetLitSelf", "SetElem", "SetField"}, init: "rich", steps: 2, maxSel: 2, maxIdx: 2, copyTypes: ct, native: 20},
 		// a received value is stored INTO the variable (pointers and closures taken before keep referring to it)
 		{name: "recv", roots: []string{"a", "b", "s", "p", "ps", "f1"}, kinds: []string{"RecvAssign", "Capture", "CallFunc", "SetThroughPtr"}, init: "rich", steps: 2, maxSel: 1, maxIdx: 1, copyTypes: ct, native: 40},
 		// append whose element operands name elements of the slice it appends to
@@ -847,6 +849,7 @@ func families(quick bool) []family {
 			{name: "append", roots: []string{"l", "k", "ll"}, kinds: []string{"AppendN", "SetElem", "Slice2"}, init: "rich", steps: 2, maxSel: 1, maxIdx: 2, copyTypes: ct, native: 20},
 			{name: "append0", roots: []string{"l", "k", "ll"}, kinds: []string{"AppendN", "SetElem", "Slice2"}, init: "zero", steps: 3, maxSel: 1, maxIdx: 2, copyTypes: ct, native: 20},
 			{name: "loopdef", roots: []string{"a", "b", "s", "as", "ll", "ps", "ms"}, kinds: []string{"LoopDefine", "SetElem", "SetField", "AssignVar"}, init: "rich", steps: 2, maxSel: 2, maxIdx: 2, copyTypes: ct, native: 10},
+			{name: "litself", roots: []string{"a", "b", "s", "as", "p", "ps", "l", "ms"}, kinds: []string{"SetLitSelf", "SetElem", "SetField", "AddrOf", "Slice2"}, init: "rich", steps: 2, maxSel: 2, maxIdx: 2, copyTypes: ct, native: 10},
 			{name: "recv", roots: []string{"a", "b", "s", "t", "l", "p", "ps", "f1"}, kinds: []string{"RecvAssign", "AddrOf", "Capture", "CallFunc", "SetThroughPtr"}, init: "rich", steps: 3, maxSel: 1, maxIdx: 1, copyTypes: ct, native: 40},
 			{name: "appendal", roots: []string{"l", "k", "s", "ll"}, kinds: []string{"AppendAl", "SetElem", "Slice2"}, init: "rich", steps: 2, maxSel: 2, maxIdx: 3, copyTypes: ct, native: 10},
 		}
